@@ -195,7 +195,13 @@ def decode(msg):
         return int(json.loads(msg)["payload"])
     if isinstance(msg, str) and msg.startswith("m"):
         return int(msg[1:])
+    if msg == "":
+        return 0      # message id 0 is the EMPTY STRING: falsy, but a legal payload of ThreadSocket.send
     return -1
+
+
+def encode_plain(m):
+    return "" if m == 0 else "m%d" % m
 
 
 class Sock(ThreadSocket):
@@ -307,7 +313,7 @@ class Worker(threading.Thread):
                 if structured:
                     sock.send_structured(StructuredMessage(header="h", payload=m))
                 else:
-                    sock.send("m%d" % m)
+                    sock.send(encode_plain(m))
                 self.res.append(["sent", kj, m])
             except ConnectionError:
                 self.res.append(["connErr", kj, m])
@@ -526,7 +532,7 @@ def oracle(case, settle_steps):
         ok = dl + q == sent or (infl is not None and infl[0] == k and dl + q == sent + [infl[1]])
         if not ok:
             fails.append({"what": "channel %s: delivered %s + queued %s is not the sent sequence %s "
-                                  "(exactly once, in order)" % (list(k), dl, q, sent), "key": list(k)})
+                                  "(exactly once, in order; message 0 is the empty string \"\")" % (list(k), dl, q, sent), "key": list(k)})
     for kj, q0, out in case["nb_seen"]:
         if q0 > 0 and out != "got":
             fails.append({"what": "non-blocking recv on %s reported %s although %d message(s) were queued"
@@ -813,7 +819,7 @@ def gen_programs(rng, n_nodes=None, max_ops=4):
             other = b if t == a else a
             if rng.random() < 0.55:
                 mid += 1
-                plan[t].append(("s", other, sid, mid))
+                plan[t].append(("s", other, sid, 0 if rng.random() < 0.25 else mid))
                 n_send[(other, t, sid)] = n_send.get((other, t, sid), 0) + 1
             else:
                 plan[t].append(("r", other, sid, None))
@@ -859,7 +865,8 @@ def build_pair(pa, pb):
         for o in seq:
             if o == "s":
                 mid += 1
-                p.append(("s", other, 0, mid))
+                first0 = t == 0 and not any(x[0] == "s" for x in p)
+                p.append(("s", other, 0, 0 if first0 else mid))
             else:
                 p.append(("r", other, 0, 1 if o == "rb" else 0))
         if disc:
